@@ -16,7 +16,8 @@ def main():
     for p in props:
         pid = p['id']
         modfile = os.path.join(VERIF, 'pbt', 'checks', pid.lower() + '.py')
-        if os.path.exists(modfile):
+        integrated = open(os.path.join(VERIF, 'pbt', 'checks', 'INTEGRATED')).read().split()
+        if os.path.exists(modfile) and pid in integrated:
             import importlib
             mod = importlib.import_module('pbt.checks.' + pid.lower())
             text = getattr(mod, 'LEVEL_TEXT', None) or TEXT.get(pid, ('', ''))[0]
@@ -50,12 +51,16 @@ def main():
     }
     with open(os.path.join(VERIF, 'MANIFEST.json'), 'w') as f:
         json.dump(man, f, indent=1)
-    import jsonschema
-    jsonschema.validate(man, json.load(open('/root/.vp/MANIFEST.schema.json')))
-    for c in checks:
-        ef = os.path.join(VERIF, c['evidence_file'])
-        if os.path.exists(ef):
-            jsonschema.validate(json.load(open(ef)), json.load(open('/root/.vp/EVIDENCE.schema.json')))
+    import subprocess
+    code = ("import json, jsonschema, sys\n"
+            "man = json.load(open('%s/MANIFEST.json'))\n"
+            "jsonschema.validate(man, json.load(open('/root/.vp/MANIFEST.schema.json')))\n"
+            "import os\n"
+            "for c in man['checks']:\n"
+            "    ef = os.path.join('%s', c['evidence_file'])\n"
+            "    if os.path.exists(ef): jsonschema.validate(json.load(open(ef)), json.load(open('/root/.vp/EVIDENCE.schema.json')))\n"
+            "    else: print('note: no evidence file yet for', c['property_id'])\n") % (VERIF, VERIF)
+    subprocess.check_call(['python3-vt', '-c', code])
     print('MANIFEST ok: %d checks, %d not_applicable' % (len(checks), len(na)))
 
 main()
